@@ -111,3 +111,45 @@ def shared_tables_arm(c):
         asked += res.get("counters", {}).get("needs_table_calls", 0)
     if not asked:
         c.errors.append("the neighbour arm never saw a NeedsTable call (vacuous)")
+    # the running operators themselves are deployed again from their own checkpoint (a job that re-assembles with
+    # surviving workers): same Operator objects, same directories; a garbage collection is forced in the middle of
+    # HandleDeploy (neighbour factory call) - the files of the checkpoint being loaded must survive whatever the
+    # operator lets go of at that moment
+    scns = []
+    for count in ((3, 256) if q else (3, 6, 256, 40000)):
+        for m in (2, 3):
+            if m > count:
+                continue
+            s = c06.Scn(count, c06.spread(count, 3), m, "major")
+            for k in (1, 2, 3):
+                s.put(k)
+            for o in range(1, m + 1):
+                if s.keys_of(o):
+                    s.put_flush(s.keys_of(o)[0])
+                    s.put_flush(s.keys_of(o)[0])
+            s.ckpt(list(range(1, m + 1)))
+            s.deploy(m, "major")                      # in place
+            for o in range(1, m + 1):
+                if s.keys_of(o):
+                    s.put(s.keys_of(o)[0])
+            s.ckpt(list(range(m, 0, -1)))
+            s.resume()
+            for o in range(1, m + 1):
+                if s.keys_of(o):
+                    s.put_flush(s.keys_of(o)[0])
+            s.ckpt(list(range(1, m + 1)))
+            s.deploy(m, "major")                      # in place, from a checkpoint with tables of both lives
+            s.put([k for o in range(1, m + 1) for k in s.keys_of(o)][0])
+            s.ckpt(list(range(1, m + 1)))
+            s.resume()
+            scns.append(s.finish())
+    behs, results = c06.elaborate(c, scns, "in-place redeploys", invariants=c06.INVS)
+    for r in results:
+        if r.violated or r.error:
+            c.errors.append("an in-place redeploy scenario violates %s in the model (%s)\n%s" % (r.violated, r.error, r.out[-1500:]))
+    behs = [b for b in behs if b is not None]
+    payload = dict(property="C09", seed=c.seed, config=dict(MemSize=4096, Chunk=15, GC=True, InPlace=True, GCInDeploy=True), behaviours=behs)
+    res = vlib.run_harness("rescale", payload, timeout=3000)
+    c.add_harness(res, payload, "running operators deployed again in place, garbage collection inside HandleDeploy (%d scenarios)" % len(behs))
+    if not res.get("violations") and (not res.get("counters", {}).get("redeploys_in_place") or not res.get("counters", {}).get("gcs_inside_deploy")):
+        c.errors.append("the in-place redeploy arm did not redeploy in place / collect inside HandleDeploy (vacuous)")
